@@ -32,6 +32,7 @@ Proof.
   destruct (negb (forallb override_ok (v1_overrides c))) eqn:E5; [discriminate|].
   destruct (existsb (fun p => p_path p =? "") (v1_packages c)) eqn:E6; [discriminate|].
   destruct (negb (forallb (fun p => forallb override_ok (p_overrides p)) (v1_packages c))) eqn:E7; [discriminate|].
+  destruct (negb (forallb (fun p => known_engine (if String.eqb (p_engine p) "" then "postgresql" else p_engine p)) (v1_packages c))) eqn:E8; [discriminate|].
   inversion H; subst k; clear H.
   set (glob := if Nat.eqb (List.length (v1_overrides c)) 0 && Nat.eqb (List.length (v1_rename c)) 0 then None
                else Some (v1_overrides c, v1_rename c)).
@@ -46,7 +47,9 @@ Proof.
     cbn [existsb]. rewrite IH. unfold v2_pkg at 1. cbn [s_engine].
     destruct (String.eqb_spec (p_engine p) "") as [E|E]; [reflexivity|].
     destruct (String.eqb_spec (p_engine p) ""); [congruence|reflexivity]. }
-  rewrite X1. rewrite existsb_map. cbn [v2_pkg s_go g_out]. rewrite E6.
+  rewrite X1.
+  rewrite forallb_map. cbn [v2_pkg s_engine]. rewrite E8.
+  rewrite existsb_map. cbn [v2_pkg s_go g_out]. rewrite E6.
   rewrite forallb_map. cbn [v2_pkg s_go g_overrides]. rewrite E7.
   eexists. split; [reflexivity|].
   split; simpl; [|reflexivity].
